@@ -149,7 +149,9 @@ theorem connack_timeout (e : Engine) (cap prefill d : Nat) (hs : e.state = .pend
   simp [Engine.service, Engine.serviceCore, hs, hd, ht]
 
 /-- **Negotiated settings are the CONNACK's values, completed with the CONNECT's values or the
-    specification's defaults.** -/
+    specification's defaults** - with one exception, stated as it is: for an absent Maximum Packet Size the code takes
+    268,435,455, five bytes below the largest MQTT packet (1 + 4 + 268,435,455 bytes), which is what "no limit" would mean.
+    The crate's own tests pin that value, so it is recorded as known finding D50 rather than repaired. -/
 theorem settings_are_connack_values (e : Engine) (c : Connack) :
     let s := e.buildSettings c
     s.maximumQos = c.maximumQos.getD 2 ∧ s.receiveMaximum = c.receiveMaximum.getD 65535 ∧
